@@ -275,7 +275,9 @@ pub fn run(case: &str) -> String {
                 let item: Option<Arc<dyn SkimItem>> = if it == 0 { None } else { Some(items[it - 1].clone()) };
                 let q: Option<String> = if f[2] == "-" { None } else { Some(format!("q{}", f[2])) };
                 let cq: Option<String> = if f[3] == "-" { None } else { Some(format!("c{}", f[3])) };
-                let sel: Vec<usize> = if f[4] == "_" {
+                // `c`: nothing selected, and the closure hands out the current item (Selection::get_selected_indices_and_items)
+                let cursor_sel = f[4] == "c";
+                let sel: Vec<usize> = if f[4] == "_" || cursor_sel {
                     vec![]
                 } else {
                     f[4].split('+').filter_map(|x| x.parse().ok()).collect()
@@ -287,7 +289,12 @@ pub fn run(case: &str) -> String {
                 let force = f[5] == "1";
                 sched::log(format!("req:{}", i));
                 let n = sel.len();
-                pv.on_item_change(i, item, q, cq, n, || (sel.clone(), sel_items.clone()), force);
+                if cursor_sel && it != 0 {
+                    let cur = items[it - 1].clone();
+                    pv.on_item_change(i, item, q, cq, 0, || (vec![i], vec![cur.clone()]), force);
+                } else {
+                    pv.on_item_change(i, item, q, cq, n, || (sel.clone(), sel_items.clone()), force);
+                }
             }
             'w' => {
                 let ms: u64 = op[1..].parse().unwrap_or(0);
